@@ -10,6 +10,10 @@ CHECKS = {
    text="Exhaustive for the bounded domain (108 refs: all pairs, all triples in thorough; all version subsets <=4 in every registration order via both registration paths), generated search beyond it. Sampling outside the grid, no proof.",
    note=TB + "; synthetic PluginGroup subclasses built with EntryPoint objects"),
 }
+CHECKS["C01"] = dict(level="exploration", ref="DESIGN.md §5 C01",
+   technique="model-based generated histories (Hypothesis, histories as data with late-bound references) run in lock step against an independent reference tree under three patch placements; full-view comparison after every operation",
+   text="Generated search over operation histories with patch boundaries, reopen and discard at arbitrary positions; every history is executed with zero, generated and maximal patch boundaries, so a boundary-dependent result shows as a divergence from the single-tree model. Bounded by history length (<=30 quick, <=120 thorough), tree size and <=~10 containers; sampling, no proof.",
+   note=TB + "; the reference tree is validated against plain h5py.File at check start")
 NOT_YET = {}
 def main():
     props = [json.loads(l) for l in open(os.path.join(HERE, "properties.jsonl"))]
